@@ -509,6 +509,16 @@ func (fr *Frame) havocLoc(env *Env, loc Expr, st *State) {
 			switch id.Name {
 			case "$elems":
 				s, ty := pre.tr(l.Args[0])
+				if mt, isMap := ty.G.Underlying().(*types.Map); isMap {
+					// m[*]: the whole content of a Go map
+					mv := g.mapHeaps(mt)
+					g.writeCell(st, mv.domKey, mv.domSort, s.S, g.sc.Fresh("dom", mv.domSort).S)
+					g.writeCell(st, mv.valKey, mv.valSort, s.S, g.sc.Fresh("val", mv.valSort).S)
+					cd := g.sc.Fresh("card", SInt)
+					g.sc.Assume("(>= " + cd.S + " 0)")
+					g.writeCell(st, mv.cardKey, SInt, s.S, cd.S)
+					return
+				}
 				sl, ok := ty.G.Underlying().(*types.Slice)
 				if !ok {
 					g.fail("modifies x[*] on non-slice")
@@ -853,6 +863,26 @@ func (fr *Frame) engineBuiltin(key string, fn *ssa.Function, args []Term, sig *t
 		t := g.sc.Fresh("sprintf", SStr)
 		g.sc.Assume("(>= (strlen " + t.S + ") 0)")
 		return []Term{t}, true
+	case "(*sync.Once).Do":
+		// once.Do(f): f runs iff the ghost flag $done is not set; the flag is set afterwards. Only for a function
+		// value known in this frame (a closure made here or a tracked function value).
+		if _, ok := g.W.ghosts["$done"]; !ok || len(args) != 2 {
+			return nil, false
+		}
+		cl, ok := g.closures[args[1].S]
+		if !ok {
+			return nil, false
+		}
+		done := g.getGhost(c.st, "$done", args[0].S).S
+		before := c.st.clone()
+		beforeReach := c.reach
+		run := &blockCtx{st: c.st.clone(), reach: and(c.reach, not(done))}
+		fr.callStatic(cl.fn, cl.bindings, nil, cl.fn.Signature, run, ins)
+		merged := g.mergeStates([]string{not(done), "true"}, []*State{run.st, before})
+		c.st = merged
+		c.reach = and(beforeReach, or(done, run.reach))
+		g.setGhost(c.st, "$done", args[0].S, "true")
+		return nil, true
 	}
 	return nil, false
 }
